@@ -63,7 +63,7 @@ impl<D: 'static + scpi::Device, H: Command<D> + 'static> Built<D, H> {
         }
         let sub = b.build_slice(root_children);
         let name = b.name(top);
-        let root = Box::new(Node::Branch { name, default: false, sub });
+        let root = Box::new(if top.is_empty() && root_children.len() % 2 == 0 { Node::root(sub) } else { Node::Branch { name, default: false, sub } });
         b.root = Box::into_raw(root);
         b
     }
@@ -82,11 +82,26 @@ impl<D: 'static + scpi::Device, H: Command<D> + 'static> Built<D, H> {
                 SpecKind::Leaf(h) => {
                     let hp: *mut H = self.handlers[*h];
                     let handler: &'static dyn Command<D> = unsafe { &*hp };
-                    v.push(Node::Leaf { name, default: s.default, handler });
+                    // every other node is made with the library's const constructors instead of a struct literal
+                    let via_ctor = (s.name.len() + v.len()) % 2 == 1;
+                    v.push(if !via_ctor {
+                        Node::Leaf { name, default: s.default, handler }
+                    } else if s.default {
+                        Node::default_leaf(name, handler)
+                    } else {
+                        Node::leaf(name, handler)
+                    });
                 }
                 SpecKind::Branch(sub) => {
                     let sub = self.build_slice(sub);
-                    v.push(Node::Branch { name, default: s.default, sub });
+                    let via_ctor = (s.name.len() + v.len()) % 2 == 1;
+                    v.push(if !via_ctor {
+                        Node::Branch { name, default: s.default, sub }
+                    } else if s.default {
+                        Node::default_branch(name, sub)
+                    } else {
+                        Node::branch(name, sub)
+                    });
                 }
             }
         }
